@@ -59,7 +59,7 @@ def gen_universe(rng, max_classes=5, max_objs=5, mixins=True, evs=None):
         # handler classes whose instances are value objects (compare equal; possibly unhashable)
         for cid in handler_classes:
             if rng.random() < 0.6:
-                lines.append(f'trait {cid} ' + rng.choice(['eq', 'eq', 'unhash']))
+                lines.append(f'trait {cid} ' + rng.choice(['eq', 'eq', 'unhash', 'falsy', 'falsy', 'eq falsy']))
     objs = {}
     for oid in range(rng.randint(1, max_objs)):
         c = rng.choice(handler_classes)
